@@ -387,15 +387,16 @@ def _as_labelled(t, order):
     return ref.sum_of_products([(t.data, t.inds)], order)
 
 
-@obligation(PROP, params=[{"preserve": p, "transpose": tr, "inplace": ip, "shape": sh, "dims": d}
+@obligation(PROP, params=[{"dims": d, "G": sh, "keep": p, "T": tr, "ip": ip}        # short names: replay files are named by the first 80 chars
                           for p in (True, False) for tr in (False, True) for ip in (False, True)
                           for sh in ("square", "wide", "tall") for d in ((2, 3, 4), (2, 2, 2))])
-def tensor_gate_options(mk, preserve, transpose, inplace, shape, dims):
+def tensor_gate_options(mk, dims, G, keep, T, ip):
     """Tensor.gate / gate_ on EVERY axis of a rank-3 tensor (pairwise distinct dims, and all-equal dims where a
     mislabelled axis is silent), for every combination of preserve_inds x transpose x inplace and square /
     non-square G: the result read through its own labels is G (resp. G^T) on that label; labels are the same set
     (same order if preserve_inds, gated label first otherwise); receiver and G are untouched unless inplace"""
     mk.encodes(tc.Tensor.gate)
+    shape, preserve, transpose, inplace = G, keep, T, ip
     order = ("a", "b", "c")
     shp = tuple(dims)
     dims = dict(zip(order, shp))
@@ -533,16 +534,18 @@ def sub_mpo(mk, name, sites, L, kind="cplx", D=2):
     return A, Ad
 
 
+_OPLAZY = {"vec": "gate_with_op_lazy", "submpo-lazy": "gate_with_submpo[lazy]", "upper": "gate_upper_with_op_lazy",
+           "lower": "gate_lower_with_op_lazy", "sandwich": "gate_sandwich_with_op_lazy"}
 _P_OPLAZY = ([{"entry": e, "flag": f, "inplace": ip, "sites": s}
-              for e in ("gate_with_op_lazy", "gate_with_submpo[lazy]") for f in (False, True) for ip in (False, True)
+              for e in ("vec", "submpo-lazy") for f in (False, True) for ip in (False, True)
               for s in ((0, 1), (0, 2), (1, 2), (0, 1, 2))]
              + [{"entry": e, "flag": f, "inplace": ip, "sites": (0, 1)}
-                for e in ("gate_upper_with_op_lazy", "gate_lower_with_op_lazy", "gate_sandwich_with_op_lazy")
+                for e in ("upper", "lower", "sandwich")
                 for f in (False, True) for ip in (False, True)])
 
 
 @obligation(PROP, params=_P_OPLAZY)
-def gate_object_reuse_op_lazy(mk, entry, flag, inplace, sites):
+def op_object_reuse(mk, entry, flag, inplace, sites):
     """gating with an operator NETWORK object (gate_with_op_lazy, gate_with_submpo(method='lazy'), gate_upper_/lower_/
     sandwich_with_op_lazy; flag = transpose resp. dagger; plain and inplace): value as documented; the operator object is
     untouched after every call (inplace_op is left at its default False); the same object used again - with either value
@@ -550,6 +553,7 @@ def gate_object_reuse_op_lazy(mk, entry, flag, inplace, sites):
     mk.encodes(ag.tensor_network_apply_op_vec, ag.tensor_network_apply_op_op, ag.TensorNetworkGenVector.gate_with_op_lazy,
                ag.TensorNetworkGenOperator.gate_upper_with_op_lazy, ag.TensorNetworkGenOperator.gate_lower_with_op_lazy,
                ag.TensorNetworkGenOperator.gate_sandwich_with_op_lazy, c1.MatrixProductState.gate_with_submpo)
+    entry = _OPLAZY[entry]
     vec = entry in ("gate_with_op_lazy", "gate_with_submpo[lazy]")
     if vec:
         L = 3
@@ -686,26 +690,27 @@ def _gs_adjacent(geom, w):
 # nearest-neighbour pairs with smudge=0.0 decide in seconds (quick); the default smudge (1e-12 * max(g): one more defined
 # inverse per outer bond) costs ~10x: thorough tier.  The longer-range route chains 3 SVDs + 2 QRs: its value identity is
 # beyond the present certificate search (no verdict within 400 s) - two representatives are kept in the thorough tier,
-# not mandatory, like the chained MPS modes of gate_mps_modes; quick tier: gate_simple_long_range_plumbing
-_P_GS2 = ([{"geom": "chain", "where": w, "opt": o, "smudge": sm, "inplace": True,
+# not mandatory, like the chained MPS modes of gate_mps_modes; quick tier: gate_simple_long_range
+_P_GS2 = ([{"geom": "chain", "where": w, "opt": o, "sm": sm, "ip": True,
             "_tiers": ("quick", "thorough") if sm == 0.0 else ("thorough",)}
            for w in _wheres(3, 2) if _gs_adjacent("chain", w) for o in _GS_OPTS for sm in (0.0, "default")]
-          + [{"geom": "chain", "where": w, "opt": o, "smudge": 0.0, "inplace": False}
+          + [{"geom": "chain", "where": w, "opt": o, "sm": 0.0, "ip": False}
              for w in ((0, 1), (2, 1)) for o in _GS_OPTS]
-          + [{"geom": "star", "where": w, "opt": o, "smudge": 0.0, "inplace": True}        # hub with three gauged bonds
+          + [{"geom": "star", "where": w, "opt": o, "sm": 0.0, "ip": True}        # hub with three gauged bonds
              for w, o in (((1, 3), "plain"), ((3, 1), "transpose"), ((0, 1), "dagger"))]
-          + [{"geom": "chain", "where": w, "opt": o, "smudge": 0.0, "inplace": True, "_tiers": ("thorough",), "_mandatory": False}
+          + [{"geom": "chain", "where": w, "opt": o, "sm": 0.0, "ip": True, "_tiers": ("thorough",), "_mandatory": False}
              for w, o in (((0, 2), "plain"), ((2, 0), "transpose"))])
 
 
 @obligation(PROP, params=_P_GS2, rounds=2, timeout_s=400, wall_s=300, max_rows=80000)
-def gate_simple_two_site(mk, geom, where, opt, smudge, inplace):
+def gate_simple_two_site(mk, geom, where, opt, sm, ip):
     """gate_simple_ with a TWO-site gate on a gauged state (symbolic positive gauge on every bond): nearest-neighbour
     pairs (reduced split of the gauged pair) and longer-range pairs (gate routed along the connecting path), both site
     orders, plain / transpose / dagger, no truncation, renorm=False: the physical state (NEW gauges re-absorbed) equals
     (G | G^T | G^dag on the pair, in the given order) @ old physical state; bonds away from the gate keep their gauge"""
     mk.encodes(ag.tensor_network_ag_gate_simple, ag.tensor_network_ag_gate_simple_long_range, ag.tensor_network_ag_gate,
                tc.TensorNetwork.gauge_simple_insert, tc.TensorNetwork.gauge_simple_remove, tc.tensor_gauge_simple_bond)
+    smudge, inplace = sm, ip
     edges, n = _GS_EDGES[geom]
     psi, dims = gen_vector(mk, edges, n, "real")
     sinds = [psi.site_ind(i) for i in range(n)]
@@ -745,7 +750,7 @@ def gate_simple_two_site(mk, geom, where, opt, smudge, inplace):
                           for g, w in (("chain", (0, 2)), ("chain", (2, 0)), ("star", (0, 3)), ("star", (3, 2)))
                           for o in _GS_OPTS for p in (None, "sites")],
             numeric_required=True, num_trials=3)
-def gate_simple_long_range_plumbing(mk, geom, where, opt, path):
+def gate_simple_long_range(mk, geom, where, opt, path):
     """gate_simple_ on a NON-adjacent pair (gate routed along the connecting path, default path and explicit site path).
     The chained factorisations (3 SVD + 2 QR) put the value identity beyond the certificate search of the quick tier, so
     here the real routine runs on symbolic arrays for the label / tag / gauge-store plumbing only (solver-free structural
